@@ -53,6 +53,7 @@ pub fn judge_nocover<T: Viewed>(r: Result<T, Rec>, ex: &Expect, p: &Path) {
             oblige!(stop_then_handover(&e), "C03:stop_ends_work");
             // the same law on the log of *every* call made (a report made after a stop and then dropped is invisible in the returned error)
             oblige!(stop_then_handover(&rec::global()), "C01,C03:no_report_is_made_after_a_stop");
+            oblige!(stop_at_user_fn_report_ends_the_container(&rec::global()), "C03:a_stop_answered_to_a_user_function_error_ends_the_container");
             oblige!(all_under(&e, p), "C04:every_event_under_the_given_location");
             oblige!(handovers_at_or_above_previous(&rec::global()), "C04:every_hand_over_is_at_or_above_what_it_hands_over");
             oblige!(agree_on(&e, &ex.log, |x| x.kind() == K_HANDOVER || x.kind() == K_UNEXPECTED || x.kind() == K_KIND), "C04:locations_and_actual_values");
@@ -65,6 +66,18 @@ pub fn judge_nocover<T: Viewed>(r: Result<T, Rec>, ex: &Expect, p: &Path) {
     }
 }
 
+/// the same for scenarios in which only one of accepted / faulty is possible (e.g. fewer members than required fields)
+pub fn run_struct_nocover<T: Deserr<Rec> + Viewed>(desc: &'static StructDesc, dict: &'static [&'static str], n: u8) {
+    reset_all(dict);
+    let mut i = 0;
+    while i < n { put_entry(i, nd::below(dict.len() as u8), any_val()); i += 1; }
+    let o = ValuePointerRef::Origin; let l = o.push_index(1);
+    let p = Path::ROOT.idx(1);
+    let r = <T as Deserr<Rec>>::deserialize_from_value::<KV>(to_value(Node::Map(0, n)), l);
+    let mut ex = Expect::EMPTY;
+    reference::struct_spec(desc, Node::Map(0, n), p, &mut ex);
+    judge_nocover(r, &ex, &p);
+}
 pub fn run_struct<T: Deserr<Rec> + Viewed>(desc: &'static StructDesc, dict: &'static [&'static str], n: u8) {
     reset_all(dict);
     let mut i = 0;
@@ -426,7 +439,8 @@ pub static S_REFS13: StructDesc = StructDesc { fields: &[
     FieldDesc { key: 1, presence: Presence::Required, ty: FTy::Leaf, missing_fn: false, conv: Conv::From(0), map: None },
     FieldDesc { key: 2, presence: Presence::Required, ty: FTy::Leaf, missing_fn: false, conv: Conv::None, map: Some(2) },
 ], deny: Deny::No, validate: None };
-pub fn derive_refs13_2() { run_struct::<Refs13>(&S_REFS13, &D_CONV8, 2) }
+// three required fields and two members: never accepted (the accepted case is derive_refs13_3, native execution)
+pub fn derive_refs13_2() { run_struct_nocover::<Refs13>(&S_REFS13, &D_CONV8, 2) }
 pub fn derive_refs13_3() { run_struct::<Refs13>(&S_REFS13, &D_CONV8, 3) }
 
 // ---- T14: container-level `from` (infallible): the intermediate value is deserialized first, then converted exactly once ----
